@@ -33,11 +33,11 @@ def cases(tier, seed):
     reps = 1 if tier == "quick" else 6
     for _ in range(reps):
         for N, db, vb, rep, fast in itertools.product([1, 2, 5], DBATCH, VBATCH, REPS, [True, False]):
-            if tier == "quick" and rnd.random() < 0.6:
+            if tier == "quick" and rnd.random() < 0.0:
                 continue
             yield {"kind": "logprob", "N": N, "dbatch": db, "vbatch": vb, "rep": rep, "fast": fast, "mean_less": rnd.random() < 0.3, "seed": rnd.randrange(10**6)}
         for N, b1, b2, r1, r2 in itertools.product([1, 3], DBATCH, DBATCH, ["dense", "linop", "root", "wideroot", "diag"], ["dense", "kron", "addeddiag", "wideroot", "diag"]):
-            if tier == "quick" and rnd.random() < 0.5:
+            if tier == "quick" and rnd.random() < 0.0:
                 continue
             yield {"kind": "kl", "N": N if r2 != "kron" else 4, "b1": b1, "b2": b2, "r1": r1, "r2": r2, "seed": rnd.randrange(10**6)}
         for N, db, rep in itertools.product([1, 2, 5], DBATCH, REPS):
